@@ -13,10 +13,10 @@
     (for `dd.autoref` and JSON: one reference per returned `Function` when it returns).  For JSON
     this is the `except BaseException:` clause of `_load_json` (F17).
   * THE ORDER IS STILL A BIJECTION onto `0..n-1` (`OrderOK`): always for `levels=False` and for
-    JSON; for `levels=True` thanks to the pre-check of `_load_pickle` (F16: refused before
-    anything is declared) WHEN the pairs of the file are a bijection onto `0..len-1` (`VarsWF`:
-    distinct names, distinct levels, all below `len`).  For a file whose levels are NOT such a
-    bijection the pre-check is not enough: `fileGapA`, `fileGapB` below still end with a gap.
+    JSON; for `levels=True` thanks to the two pre-checks of `_load_pickle` (F16: the file's
+    levels are a permutation of `0..n-1`, every pair agrees with the manager): the load is
+    refused before anything is declared, or every variable gets declared.  (The hypothesis
+    "distinct names" says that `vars` is a dict — the model keeps its items as a list.)
 
   * pickle, `dd.bdd.BDD.load` / `dd.autoref.BDD.load`: any `levels`, dynamic reordering enabled
     or not (the loader never looks at it outside a context) — `C17_load_rejected`,
@@ -42,7 +42,8 @@ one reference per returned `Function`, and for the caller's ledger when the call
 theorem C17_load_rejected_autoref (f : PickleFile) (levels : Bool) (m : Mgr) (hI : Inv m)
     (hc : m.ctx = false) :
     KeptV m (loadPickleAutoref f levels m).2 ∧
-    (OrderOK m.tbl → (levels = true → VarsWF f.vars) → OrderOK (loadPickleAutoref f levels m).2.tbl) ∧
+    (OrderOK m.tbl → (levels = true → (f.vars.map (·.1)).Nodup) →
+      OrderOK (loadPickleAutoref f levels m).2.tbl) ∧
     ∀ ext, RefExact m ext →
       match (loadPickleAutoref f levels m).1 with
       | .ok roots => RefExact (loadPickleAutoref f levels m).2 (extAdd ext (roots.values.map Int.natAbs))
@@ -107,7 +108,7 @@ def fileF16 : PickleFile :=
     roots := .list [2] }
 
 example : loadPickle fileF16 true (mgr2 "q" "r") = (.error .value, mgr2 "q" "r") :=
-  loadPickle_refused fileF16 _ (by decide +kernel)
+  loadPickle_refused fileF16 _ (Or.inr (by decide +kernel))
 
 /-- `levels=True` into a manager that has the file's variables at other levels: refused
 (`ValueError`) with nothing changed -/
@@ -115,11 +116,12 @@ example : (loadPickle fileDangling true (mgr2 "y" "x")).1 = .error .value ∧
     (loadPickle fileDangling true (mgr2 "y" "x")).2.tbl.vars.toList = [("x", 1), ("y", 0)] := by
   decide +kernel
 
-/-! ### what is NOT true: the residual gap for files whose levels are not a bijection
+/-! ### files whose own levels are not a permutation of `0..n-1`
 
-The pre-check compares the file with the manager only.  The range assertion (`0 <= i < n`) and
-the refusal "level already used" of `add_var` still fire half-way when the file's own levels are
-out of range or repeated, after an earlier variable was declared above a free level. -/
+The pre-check of the pairs against the manager is not enough for them: the range assertion
+(`0 <= i < n`) and the refusal "level already used" of `add_var` would fire half-way, after an
+earlier variable was declared above a free level.  `_load_pickle` therefore first checks
+`sorted(levels) == list(range(n))`: both files are refused with NOTHING declared. -/
 
 /-- levels 1 and 5 for two variables -/
 def fileGapA : PickleFile :=
@@ -128,26 +130,18 @@ def fileGapA : PickleFile :=
 def fileGapB : PickleFile :=
   { vars := [("a", 1), ("b", 1)], succ := [⟨1, 2, none, none⟩], roots := .list [1] }
 
-/-- `AssertionError((5, 2))` after `a` was declared at level 1: level 0 is empty -/
-example : (loadPickle fileGapA true {}).1 = .error .assertion ∧
-    (loadPickle fileGapA true {}).2.tbl.vars.toList = [("a", 1)] ∧
-    (loadPickle fileGapA true {}).2.tbl.l2v.toList = [(1, "a")] := by decide +kernel
+example : loadPickle fileGapA true {} = (.error .value, {}) :=
+  loadPickle_refused fileGapA _ (Or.inl (by decide))
+example : loadPickle fileGapB true {} = (.error .value, {}) :=
+  loadPickle_refused fileGapB _ (Or.inl (by decide))
 
-theorem fileGapA_not_orderOK : ¬ OrderOK (loadPickle fileGapA true {}).2.tbl := by
-  intro h
-  have h1 : (loadPickle fileGapA true {}).2.tbl.nvars = 1 := by decide +kernel
-  have h2 : (loadPickle fileGapA true {}).2.tbl.l2v[0]? = none := by decide +kernel
-  obtain ⟨v, hv⟩ := h.total 0 (by omega)
-  rw [h2] at hv; cases hv
-
-/-- `ValueError` (level 1 is used by `a`) after `a` was declared at level 1 -/
-example : (loadPickle fileGapB true {}).1 = .error .value ∧
-    (loadPickle fileGapB true {}).2.tbl.vars.toList = [("a", 1)] := by decide +kernel
-
-/-- both files fail `VarsWF` -/
-example : ¬ VarsWF fileGapA.vars ∧ ¬ VarsWF fileGapB.vars :=
-  ⟨fun h => by have := h.bound "b" 5 (by decide); simp [fileGapA] at this,
-   fun h => by have := h.levels; simp [fileGapB] at this⟩
+/-- with `levels=False` the range assertion of the loop still stops `fileGapA` half-way
+(`AssertionError((5, 2))` after `a` was declared) — at the NEXT FREE level, so without a gap;
+`fileGapB` loads -/
+example : (loadPickle fileGapA false {}).1 = .error .assertion ∧
+    (loadPickle fileGapA false {}).2.tbl.vars.toList = [("a", 0)] ∧
+    (loadPickle fileGapB false {}).1 = .ok (.list [1]) ∧
+    (loadPickle fileGapB false {}).2.tbl.vars.toList = [("a", 0), ("b", 1)] := by decide +kernel
 
 /-! ### a JSON file with a node line for the terminal's id
 
